@@ -162,6 +162,11 @@ pub fn history_ops() -> Vec<crate::history::Op> {
                 Ok(cv) => show_cv(&cv),
                 Err(()) => "Err".into(),
             }));
+            // the lexical pipeline on every third input and on the ones that fail half-way
+            let k = inputs.iter().position(|(m, _)| m == n).unwrap_or(0);
+            if k % 3 != 0 && !n.contains("then-") && !n.starts_with("image") && !n.starts_with("twin") {
+                continue;
+            }
             let (f2, x2) = (f, x.clone());
             v.push(Op::new(format!("lexical-parse+fold[{}] {n}: {x:?}", f.name), move || {
                 let l = match ops::parse_lex(&f2, &x2) {
